@@ -392,22 +392,51 @@ pub(crate) mod verif_dec {
     #[kani::unwind(6)]
     pub fn dec_model_cs3_n5() { dec_model(3, 5, false); }
 
-    /// C10/C01: the authentic stream delivered in solver-chosen SHORT reads (std's real read_exact loop runs):
-    /// same result.
+    /// A source that delivers the model's byte stream of a single-record file but answers every read request only partly
+    /// (a solver-chosen part >= 1 byte, then the rest on the follow-up call): every read_exact is split once at an
+    /// arbitrary point, std's real read_exact loop runs.
+    pub struct ShortModelReader { pub exp: [u8; 36], pub exp_len: usize, pub pos: usize, pub in_rest: bool, pub splits: usize, pub calls: usize, pub limit: bool }
+    impl Read for ShortModelReader {
+        fn read(&mut self, buf: &mut [u8]) -> std::io::Result<usize> {
+            self.calls += 1;
+            if buf.len() == 0 || self.pos >= self.exp_len { return Ok(0); }
+            if buf.len() > 20 { self.limit = true; return Ok(0); }
+            let left = self.exp_len - self.pos;
+            let want = if buf.len() < left { buf.len() } else { left };
+            let k: usize = if self.in_rest { want } else { kani::any() };
+            kani::assume(k >= 1 && k <= want);
+            if !self.in_rest && k < want { self.in_rest = true; self.splits += 1; } else { self.in_rest = false; }
+            let p = self.pos;
+            vrep!(20, j, { if j < k { buf[j] = self.exp[p + j]; } });
+            self.pos += k;
+            Ok(k)
+        }
+    }
+
+    /// C10/C01/C02: the authentic stream delivered in SHORT reads (every read_exact split once at an arbitrary point;
+    /// std's real read_exact loop): same result.
     #[kani::proof]
     #[kani::stub(crate::chapoly_decrypt_noise, open_tracking)]
-    #[kani::unwind(20)]
+    #[kani::unwind(4)]
     pub fn dec_short_reads_cs1() {
         unsafe { DEC_AADLEN = 0; BASE = 0; }
         let plen = authentic_file(1, 1, &[], 0x11, 0);
-        let mut r = ModelReader { n: 1, ci: 0, wi: 0, extra: 0, limit: false, calls: 0, short: true };
+        let e = tget(0);
+        let mut exp = [0u8; 36];
+        let ctr: [u8; 8] = kani::any(); // the advisory counter field: any value
+        vrep!(8, j, { exp[j] = ctr[j]; });
+        vrep!(8, j, { exp[8 + j] = e.ad[j]; });
+        let t = e.tag.to_le_bytes();
+        let exp_len = if e.ptlen == 0 { vrep!(16, j, { exp[16 + j] = t[j]; }); 32 } else { exp[16] = e.ct[0]; vrep!(16, j, { exp[17 + j] = t[j]; }); 33 };
+        let mut r = ShortModelReader { exp, exp_len, pos: 0, in_rest: false, splits: 0, calls: 0, limit: false };
         let mut w = PSink::new();
         let key = [0x11u8; 32];
         let res = decrypt_chunks(&mut r, &mut w, &key, &[], 1);
+        assert!(!r.limit, "[LIMIT] read-call structure outside what this harness models (a request > 20 bytes)");
         assert!(res.is_ok(), "[C10,C01,C02] short reads are harmless: decryption succeeds");
         assert!(!w.unauth && !w.wrong && w.released == 1 && w.len == plen, "[C10,C01,C02] ... with exactly the plaintext");
-        kani::cover!(r.calls > 6);
-        kani::cover!(plen == 1);
+        kani::cover!(r.splits >= 2);
+        kani::cover!(plen == 1 && r.splits == 0);
         core::mem::forget(res);
     }
 }
